@@ -34,16 +34,14 @@ class ParseTree:
         start = []
         for i, son in enumerate(self.sons):
             end = [x.value for x in self.sons[i + 1:]]
-            derivation = []
             derivations = son.get_leftmost_derivation()
+            # What the son finally derives (possibly nothing)
+            last_derivation = derivations[-1]
             if i != 0 and derivations and derivations[0]:
                 del derivations[0]
             for derivation in derivations:
                 res.append(start + derivation + end)
-            if derivation:
-                start = start + derivation
-            else:
-                start.append(son.value)
+            start = start + last_derivation
         return res
 
     def get_rightmost_derivation(self):
@@ -64,13 +62,14 @@ class ParseTree:
         end = []
         for i, son in enumerate(self.sons[::-1]):
             start = [x.value for x in self.sons[:-1 - i]]
-            derivation = []
             derivations = son.get_rightmost_derivation()
+            # What the son finally derives (possibly nothing)
+            last_derivation = derivations[-1]
             if i != 0 and derivations and derivations[0]:
                 del derivations[0]
             for derivation in derivations:
                 res.append(start + derivation + end)
-            end = derivation + end
+            end = last_derivation + end
         return res
 
     def to_networkx(self):
